@@ -628,6 +628,120 @@ def exec_sdmxgen_history(hist, rp):
 
 
 # ---------------------------------------------------------------------------------
+# Kohn-Sham-object histories: the decorated PySCF object is kept across molecules
+# (geometry scan / reset), grid-level changes and SCF runs, as a user script does
+# ---------------------------------------------------------------------------------
+def gen_ks_history(seed):
+    rng = Rng(derive("c09-ks", seed))
+    s, ev, mode, ver = rng.choice(NI_MODELS)
+    model = {"settings": s, "ev": ev, "mode": mode, "version": ver, "seed": rng.below(10**6), "plan_type": rng.choice(["gaussian", "spline"]), "interp": rng.choice(["onsite_direct", "onsite_spline"]), "xmix": rng.choice([1.0, 0.5])}
+    uks = bool(rng.chance(0.4))
+    names = ["H2", "HeH+", "LiH", "H2O"] if not uks else ["H2", "OH", "O", "H", "LiH"]
+    nmol = rng.randint(2, 3)
+    mols = []
+    for _ in range(nmol):
+        if mols and rng.chance(0.4):
+            d = dict(mols[rng.below(len(mols))])
+            d["shift"] = [rng.uniform(-0.2, 0.2) for _ in range(3)]
+            mols.append(d)
+        else:
+            mols.append({"name": rng.choice(names), "basis": "sto-3g", "dseed": rng.below(10**6)})
+    ops = []
+    cur = 0
+    for _ in range(rng.randint(3, 7)):
+        c = rng.weighted([("veff", 5), ("scf", 2), ("reset", 4), ("level", 1)])
+        if c == "reset":
+            cur = rng.below(nmol)
+            ops.append({"op": "reset", "mol": cur})
+        elif c == "level":
+            ops.append({"op": "level", "level": rng.choice([0, 1])})
+        elif c == "veff":
+            ops.append({"op": "veff", "dm": rng.below(3)})
+        else:
+            ops.append({"op": "scf", "cycles": rng.choice([1, 2]), "dm": rng.below(3)})
+    return {"kind": "ks", "models": [model], "mols": mols, "grids": [{"level": 0}], "uks": uks, "ops": ops, "perturb": rng.choice(PERTURBS)}
+
+
+def exec_ks_history(hist, rp):
+    U = Universe(hist)
+    viol = []
+    stats = Counter()
+    dg = Digest()
+
+    def V(key, detail):
+        viol.append({"key": key, "detail": detail, "replay": rp})
+
+    uks = hist["uks"]
+    mdesc = hist["models"][0]
+
+    def scf_run(ks, cycles, dm0):
+        # the starting density is always given explicitly: PySCF itself restarts kernel()
+        # from the wave function of the previous run of the same object (by design)
+        ks.max_cycle = cycles
+        ks.conv_tol = 1e-14
+        ks.conv_check = False
+        ks.verbose = 0
+        ks.kernel(dm0=dm0)
+        return float(ks.e_tot), np.array(ks.make_rdm1(), copy=True)
+
+    def do(ks, mol, op, k):
+        if op["op"] == "veff":
+            dm = np.array(U.dm(k, 2 if uks else 1, op["dm"]), copy=True)
+            b = adigest(dm)
+            v = ks.get_veff(mol, dm)
+            return {"veff": np.array(v, copy=True), "exc": float(v.exc), "ecoul": float(v.ecoul)}, adigest(dm) == b
+        dm0 = np.array(U.dm(k, 2 if uks else 1, op.get("dm", 0)), copy=True)
+        e, dm = scf_run(ks, op["cycles"], dm0)
+        return {"e_tot": e, "dm": dm}, True
+
+    set_perturb(hist["perturb"])
+    level = 0
+    cur = 0
+    model = U.model(0)
+    ks = make_ks(model, U.mol(0), uks, {"level": 0}, mdesc)
+    ks.build()
+    site = type(ks._numint).__name__ + ("/UKS" if uks else "/RKS")
+    for step, op in enumerate(hist["ops"]):
+        c = op["op"]
+        stats["op_ks_" + c] += 1
+        dg.add(c)
+        try:
+            if c == "reset":
+                cur = op["mol"]
+                ks.reset(U.mol(cur))
+                stats["ks_resets"] += 1
+                continue
+            if c == "level":
+                level = op["level"]
+                ks.grids.level = level
+                ks.reset(U.mol(cur))
+                continue
+            got, inputs_ok = do(ks, U.mol(cur), op, cur)
+        except Exception as ex:
+            import traceback
+
+            tb = traceback.extract_tb(ex.__traceback__)
+            V("call-raises:ks.%s:%s:%s" % (c, type(ex).__name__, tb[-1].name if tb else "?"), "step %d: %s" % (step, str(ex)[:200]))
+            break
+        if not inputs_ok:
+            V("input-mutated:ks.get_veff:dm", "step %d" % step)
+        # fresh objects for the same request
+        set_perturb(hist["perturb"] ^ 0x5A)
+        mol_f = U.mol(cur, fresh=True)
+        ks_f = make_ks(U.fresh_model(0), mol_f, uks, {"level": level}, mdesc)
+        ks_f.build()
+        ref, _ = do(ks_f, mol_f, op, cur)
+        set_perturb(hist["perturb"])
+        stats["reference_calls"] += 1
+        for name in sorted(ref):
+            ok, why = close(got[name], ref[name], 1e-9 if c == "scf" else RTOL)
+            stats["comparisons"] += 1
+            if not ok:
+                V("history_vs_fresh:ks.%s:%s:%s" % (c, name, site), "step %d (%s, mol %s after %s): %s" % (step, mdesc["settings"], hist["mols"][cur]["name"], [o["op"] for o in hist["ops"][:step]][-4:], why))
+    return viol, stats, dg
+
+
+# ---------------------------------------------------------------------------------
 # plan-level histories (NLDF plans cache interpolation tensors and l=1 vectors per spin)
 # ---------------------------------------------------------------------------------
 def gen_plan_history(seed):
@@ -852,7 +966,7 @@ def exec_eval_history(hist, rp):
 
 
 # ---------------------------------------------------------------------------------
-EXEC = {"ni": exec_ni_history, "nldfgen": exec_nldfgen_history, "sdmxgen": exec_sdmxgen_history, "eval": exec_eval_history, "plan": exec_plan_history}
+EXEC = {"ni": exec_ni_history, "nldfgen": exec_nldfgen_history, "sdmxgen": exec_sdmxgen_history, "eval": exec_eval_history, "plan": exec_plan_history, "ks": exec_ks_history}
 
 
 def gen_history(kind, seed):
@@ -862,6 +976,8 @@ def gen_history(kind, seed):
         return gen_gen_history(seed)
     if kind == "plan":
         return gen_plan_history(seed)
+    if kind == "ks":
+        return gen_ks_history(seed)
     return gen_eval_history(seed)
 
 
@@ -875,7 +991,7 @@ def run_case(spec):
     stats["hist_" + hist["kind"]] += 1
     stats["perturb_%02x" % hist["perturb"]] += 1
     sample = {"kind": hist["kind"], "ops": hist["ops"][:8]}
-    if hist["kind"] in ("ni", "eval"):
+    if hist["kind"] in ("ni", "eval", "ks"):
         sample["models"] = [(m["settings"], m["ev"], m["mode"], m["version"]) for m in hist["models"]]
     if hist["kind"] == "ni":
         sample["mols"] = hist["mols"]
@@ -924,6 +1040,8 @@ def plan(tier, seed, args):
         cases.append({"hkind": "eval", "seed": derive(seed, PROP, "eval", i) % 10**9})
     for i in range(n_ev):
         cases.append({"hkind": "plan", "seed": derive(seed, PROP, "plan", i) % 10**9})
+    for i in range(n_gen):
+        cases.append({"hkind": "ks", "seed": derive(seed, PROP, "ks", i) % 10**9})
     return cases
 
 
